@@ -228,6 +228,45 @@ theorem value_head_c (cfg : Cfg) (s0 : St)
       · simp only [stepChar, hst, hsp, hvs, fail, h93]
         (repeat' split) <;> (first | contradiction | simp)
 
+/-! ### documents whose root is a literal or a number, comments on -/
+
+theorem parseTextPlainTail_of (cfg : Cfg) (hcm : cfg.comments = true) (bs w s2 : Bytes) (v : JT)
+    (hw : skipWs true (bs.length + 1) bs = some w)
+    (hv : parseValue (optFlags cfg) (w.length + 1) 0 w = some (v, s2)) (hr : dropWs s2 = []) :
+    parseTextPlainTail (optFlags cfg) bs = some v := by
+  unfold parseTextPlainTail
+  simp only [hcm, hw, hv, hr, if_true]
+
+/-- SOUNDNESS with `allow_comments` on for documents whose root is not a string, an array or an object: whatever the model accepts,
+    the reference WITH the comment production reads as a value, with only plain white space after it -/
+theorem run_sound_scalar_comments (cfg : Cfg) (hcm : cfg.comments = true) (bs : Bytes)
+    (hroot : ∀ w c r, skipWs true (bs.length + 1) bs = some w → w = c :: r → c ≠ 34 ∧ c ≠ 91 ∧ c ≠ 123)
+    (h : accepted (run cfg bs) = true) : ∃ v, parseTextPlainTail (optFlags cfg) bs = some v := by
+  have hacc : Acc cfg init bs := h
+  obtain ⟨w, hw, hA, _, hhd⟩ := acc_skip cfg hcm init rfl (bs.length + 1) bs (Nat.lt_succ_self _) hacc
+  cases w with
+  | nil => exact absurd hA (value_not_eof cfg init rfl)
+  | cons c cs =>
+    obtain ⟨hws, h47⟩ := hhd c cs rfl
+    obtain ⟨h34, h91, h123⟩ := hroot _ c cs hw rfl
+    have hA' : accepted (finish (feed cfg init (c :: cs))) = true := hA
+    rcases value_head_c cfg init rfl c cs hws h47 (by simp [parent, init]) hA with e | e | e | rfl | rfl | rfl | ⟨ns0, hns⟩
+    · exact absurd e h123
+    · exact absurd e h91
+    · exact absurd e h34
+    · obtain ⟨r, rfl, hr⟩ := true_sound cfg cs hA'
+      exact ⟨.bool true, parseTextPlainTail_of cfg hcm bs _ r _ hw (by simp [parseValue, startsWith]) hr⟩
+    · obtain ⟨r, rfl, hr⟩ := false_sound cfg cs hA'
+      exact ⟨.bool false, parseTextPlainTail_of cfg hcm bs _ r _ hw (by simp [parseValue, startsWith]) hr⟩
+    · obtain ⟨r, rfl, hr⟩ := null_sound cfg cs hA'
+      exact ⟨.null, parseTextPlainTail_of cfg hcm bs _ r _ hw (by simp [parseValue, startsWith]) hr⟩
+    · obtain ⟨lit, r, hp, hr⟩ := number_sound cfg c cs ns0 hns hA'
+      refine ⟨.num lit, parseTextPlainTail_of cfg hcm bs _ r _ hw ?_ hr⟩
+      have e1 : c ≠ 116 ∧ c ≠ 102 ∧ c ≠ 110 := by
+        unfold numStart at hns
+        (repeat' split at hns) <;> cases hns <;> omega
+      simp [parseValue, h123, h91, h34, e1.1, e1.2.1, e1.2.2, hp]
+
 end JsonParser
 end Model
 end JV
